@@ -1,1 +1,132 @@
-// Verification-only module (cfg(kani)); harnesses are added here.
+// Verification-only module (cfg(kani)); copied into the scratch copy of /repo by
+// /verif/engine/kani_run.py.
+//
+// C13, membership tag (RFC 9420 section 6.1 / 6.2), against the ghost provider of
+// key_schedule/verif_kani.rs:
+//
+//   membership_tag = MAC(membership_key, AuthenticatedContentTBM)
+//   struct { FramedContentTBS content_tbs; FramedContentAuthData auth; } AuthenticatedContentTBM;
+//   struct { ProtocolVersion version = mls10; WireFormat wire_format; FramedContent content;
+//            select (content.sender.sender_type) {
+//              case member: case new_member_commit: GroupContext context;
+//              case external: case new_member_proposal: struct{}; } } FramedContentTBS;
+//   struct { opaque signature<V>;
+//            select (content_type) { case commit: MAC confirmation_tag; default: struct{}; } }
+//       FramedContentAuthData;
+//
+// The expected MAC input is assembled by hand (no mls-rs-codec).  Bounds: group_id 2,
+// authenticated_data 1, signature 2, confirmation tag 2, tree hash 1, confirmed transcript
+// hash 2 bytes (all values symbolic); content = empty Commit (with confirmation tag) or
+// application data of 2 bytes (without); sender = member (the only sender whose messages
+// carry a membership tag).
+use super::*;
+use crate::group::commit::Commit;
+use crate::group::confirmation_tag::ConfirmationTag;
+use crate::group::framing::{ApplicationData, Content, FramedContent, Sender, WireFormat};
+use crate::group::message_signature::MessageSignature;
+
+crate::c13_ghost_support!();
+
+fn membership_case(commit: bool) {
+    let p = GhostProvider::new();
+    let key = any_exact::<NH>();
+    let gid = any_exact::<2>();
+    let th = any_exact::<1>();
+    let cth = any_exact::<2>();
+    let ctx = group_context(&gid, &th, &cth, None);
+    let leaf: u32 = kani::any();
+    let ad = any_exact::<1>();
+    let sig = any_exact::<2>();
+    let tag = any_exact::<2>();
+    let app = any_exact::<2>();
+    let epoch: u64 = kani::any();
+
+    let content = if commit {
+        Content::Commit(alloc::boxed::Box::new(Commit { proposals: vec![], path: None }))
+    } else {
+        Content::Application(ApplicationData::from(app.clone()))
+    };
+    let confirmation_tag = if commit {
+        let enc = [2u8, tag[0], tag[1]];
+        Some(ConfirmationTag::mls_decode(&mut &enc[..]).ok().unwrap())
+    } else {
+        None
+    };
+    let auth = AuthenticatedContent {
+        wire_format: WireFormat::PublicMessage,
+        content: FramedContent {
+            group_id: gid.clone(),
+            epoch,
+            sender: Sender::Member(leaf),
+            authenticated_data: ad.clone(),
+            content,
+        },
+        auth: FramedContentAuthData { signature: MessageSignature::from(sig.clone()), confirmation_tag },
+    };
+
+    let r = MembershipTag::create(&auth, &ctx, &key, &p);
+    assert!(r.is_ok());
+    let t = r.ok().unwrap();
+    kani::cover!(true);
+
+    let mut want = Vec::with_capacity(80);
+    rfc_u16(&mut want, *ctx.protocol_version); // version (mls10 in every valid group)
+    rfc_u16(&mut want, 1); // wire_format = mls_public_message
+    rfc_opaque(&mut want, &gid);
+    rfc_u64(&mut want, epoch);
+    want.push(1); // sender_type = member
+    rfc_u32(&mut want, leaf);
+    rfc_opaque(&mut want, &ad);
+    if commit {
+        want.push(3); // content_type = commit
+        want.push(0); // proposals<V>, empty
+        want.push(0); // optional<UpdatePath> absent
+    } else {
+        want.push(1); // content_type = application
+        rfc_opaque(&mut want, &app);
+    }
+    want.extend_from_slice(&rfc_group_context(&ctx)); // sender is a member
+    rfc_opaque(&mut want, &sig);
+    if commit {
+        rfc_opaque(&mut want, &tag);
+    }
+    assert!(p.calls() == 1);
+    assert!(p.is(0, Op::Mac, &key, &want, 0));
+    assert!(is_out(&t, 1, MAC_LEN));
+    core::mem::forget((auth, ctx));
+}
+
+#[kani::proof]
+#[kani::unwind(12)]
+fn c13_membership_tag_commit_bounded_2() {
+    membership_case(true);
+}
+
+#[kani::proof]
+#[kani::stub(zeroize::optimization_barrier, noop_barrier)]
+#[kani::unwind(12)]
+fn c13_membership_tag_application_bounded_2() {
+    membership_case(false);
+}
+
+#[kani::proof]
+#[kani::unwind(12)]
+fn c13_membership_tag_provider_error() {
+    let p = GhostProvider::failing_at(0);
+    let ctx = group_context(&[1], &[2], &[3], None);
+    let auth = AuthenticatedContent {
+        wire_format: WireFormat::PublicMessage,
+        content: FramedContent {
+            group_id: vec![1],
+            epoch: kani::any(),
+            sender: Sender::Member(kani::any()),
+            authenticated_data: vec![],
+            content: Content::Commit(alloc::boxed::Box::new(Commit { proposals: vec![], path: None })),
+        },
+        auth: FramedContentAuthData { signature: MessageSignature::from(vec![]), confirmation_tag: None },
+    };
+    let r = MembershipTag::create(&auth, &ctx, &any_exact::<NH>(), &p);
+    kani::cover!(true);
+    assert!(is_provider_error(&r));
+    core::mem::forget((r, auth, ctx));
+}
